@@ -163,14 +163,14 @@ func (o *C12Oracle) Check(ctx *core.Ctx, ev *Event) {
 				return "evicted-file-was-pinned"
 			}
 		}
-		for _, f := range evicted {
-			if f.HasAddr(addr) && f.AtN {
-				return "evicted-file-was-uploaded"
-			}
-		}
 		for _, f := range rn.Files() {
 			if f.Raw && f.HasAddr(addr) {
 				return "shared-with-unregistered-upload"
+			}
+		}
+		for _, f := range evicted {
+			if f.HasAddr(addr) && f.AtN {
+				return "evicted-file-was-uploaded"
 			}
 		}
 		for _, f := range rn.Files() {
@@ -223,8 +223,9 @@ func (o *C12Oracle) Check(ctx *core.Ctx, ev *Event) {
 // ---- C15 ------------------------------------------------------------------------------------------
 
 type pinFrame struct {
-	spec string
-	pins map[string]uint64
+	spec  string
+	pins  map[string]uint64
+	valid bool // false: the snapshot is stale (a reference pinned below it was unpinned out of order)
 }
 
 // C15Oracle: pin marks reference + all chunks; second pin no change; unpin restores every counter
@@ -233,6 +234,9 @@ type C15Oracle struct {
 	last    map[string]string // spec -> "pin" | "unpin" | ""
 	stack   []pinFrame
 	partial map[string]bool // spec was pinned while not fully stored: outside the property ("a stored reference")
+	// a failed unpin of such a partly stored reference is not atomic (the counters it could lower stay lowered, the
+	// reference stays listed, a retry lowers them again): from then on pin counts of OTHER references are damaged
+	corrupt bool
 }
 
 func NewC15Oracle() *C15Oracle {
@@ -297,7 +301,7 @@ func (o *C15Oracle) Check(ctx *core.Ctx, ev *Event) {
 				break
 			}
 			o.partial[f.Spec] = false
-			o.stack = append(o.stack, pinFrame{spec: f.Spec, pins: copyPins(ev.Before.Pin)})
+			o.stack = append(o.stack, pinFrame{spec: f.Spec, pins: copyPins(ev.Before.Pin), valid: true})
 			for _, a := range f.All {
 				if ev.After.Pin[a.String()] == 0 {
 					clause := "pinned-chunk-not-marked"
@@ -335,27 +339,39 @@ func (o *C15Oracle) Check(ctx *core.Ctx, ev *Event) {
 			}
 			o.last[f.Spec] = "unpin"
 			// LIFO frame: compare with the counters before the matching pin
+			suffix := ""
+			if o.corrupt {
+				suffix = ".after-failed-unpin-of-partial-reference"
+			}
 			if n := len(o.stack); n > 0 && o.stack[n-1].spec == f.Spec {
 				fr := o.stack[n-1]
 				o.stack = o.stack[:n-1]
-				if k, ok := samePins(fr.pins, ev.After.Pin); !ok {
+				if k, ok := samePins(fr.pins, ev.After.Pin); !ok && fr.valid {
 					clause := "unpin-does-not-restore"
 					if f.Enc {
 						clause = "unpin-does-not-restore-encrypted"
 					}
-					ctx.Fail(clause, "after pin;…;unpin of %s pin counter of %s (id %d) is %d, before the pin it was %d", f.Spec, k[:8], rn.ids[k], ev.After.Pin[k], fr.pins[k])
+					ctx.Fail(clause+suffix, "after pin;…;unpin of %s pin counter of %s (id %d) is %d, before the pin it was %d", f.Spec, k[:8], rn.ids[k], ev.After.Pin[k], fr.pins[k])
 				}
 			} else {
-				// non-nested order (or the unpin of a pinned UPLOAD, which has no frame): the frames
-				// from this reference's frame upwards — all of them if it has none — are no longer comparable
-				cut := 0
+				// out-of-order unpin: the reference's own frame goes; the frames above it (their snapshots include
+				// this reference's pin) stay as place holders but are no longer comparable.  A reference without a
+				// frame (pinned upload) invalidates everything.
+				idx := -1
 				for i := range o.stack {
 					if o.stack[i].spec == f.Spec {
-						cut = i
+						idx = i
 						break
 					}
 				}
-				o.stack = o.stack[:cut]
+				if idx < 0 {
+					o.stack = nil
+				} else {
+					for i := idx + 1; i < len(o.stack); i++ {
+						o.stack[i].valid = false
+					}
+					o.stack = append(o.stack[:idx], o.stack[idx+1:]...)
+				}
 			}
 		case 404:
 			if o.last[f.Spec] == "pin" {
@@ -371,7 +387,10 @@ func (o *C15Oracle) Check(ctx *core.Ctx, ev *Event) {
 			o.stack = nil
 			switch {
 			case o.partial[f.Spec]:
-				// outside the property
+				// outside the property, but not atomic: see corrupt
+				o.corrupt = true
+			case o.corrupt:
+				ctx.Fail("unpin-failed.after-failed-unpin-of-partial-reference", "unpin of %s answered %d after the failed unpin of a partly stored reference lowered shared counters", f.Spec, ev.Code)
 			case f.Enc:
 				ctx.Fail("unpin-fails-encrypted", "unpin of encrypted reference %s answered %d and the reference stays listed", f.Spec, ev.Code)
 			default:
